@@ -267,6 +267,30 @@ def run(ctx):
         ctx.check(not missing, "R4.5", where, f"{name.split(' in ')[0]}|sufficient",
                   f"{name}: the encode set lacks {[chr(x) if 32 < x < 127 else hex(x) for x in missing]}, so a value containing it reaches the handler altered — " + c07.missing_text(spec, missing),
                   instance=f"{name}: superset of the {len(need)} bytes the server decoders interpret")
+    # ---------------- R4.12 every value of a header argument is sent, and a body that claims to be re-sendable is
+    tm_ = F.tmpl()
+    nh = 0
+    for fn in (tm_["functions"] if tm_ is not None else []):
+        if not fn["file"].endswith("conjure-macros/src/client.rs"):
+            continue
+        for q in fn["quotes"]:
+            txt = q["text"].replace(" ", "")
+            if "headers_mut()" in txt and "for" in q["text"].split() and ("EncodeHeader" in txt or "__header_value" in txt):
+                nh += 1
+                ctx.check(".append(" in txt and ".insert(" not in txt, "R4.12", f"{fn['file']}:{q['line']}", f"{fn['name']}|header-values-appended",
+                          f"{fn['name']}: the values an EncodeHeader encoder yields are written in a loop with `insert`, which replaces the previous value of the same header: only the last element of a multi-valued header argument reaches the server (use `append`)",
+                          instance=f"{fn['name']}: each encoded header value is appended")
+    ctx.floor("R4.12", "header-writing loops in the client macro", nh, 1)
+    chx = F.crate("conjure_http")
+    for wb_ in [x for x in chx.bodies if x.name == "write_body" and (x.trait or "").endswith("::WriteBody")]:
+        sib = [y for y in chx.bodies if y.impl and wb_.impl and y.d.get("impl", {}).get("id") == wb_.d.get("impl", {}).get("id") and y.name == "reset"]
+        resettable = any((dt.resolve_const(y, s_["r"]["use"]) or {}).get("bool") is True for y in sib for _, _, s_ in y.stmts() if place_local(s_["d"]) == 0 and "use" in s_["r"])
+        if not resettable:
+            continue
+        consumed = [t["call"]["name"] for _, t in wb_.calls() for a_ in (t.get("atys") or []) if tystr(a_).startswith("&mut &") or tystr(a_).startswith("&mut &mut")]
+        ctx.check(not consumed, "R4.12", wb_.loc(), f"{tystr(wb_.self_ty or {})}|write_body-repeatable",
+                  f"WriteBody for {tystr(wb_.self_ty or {})}: reset() answers true (the body can be sent again) but write_body hands the body to {consumed} by mutable reference, which consumes it (io::Read for &[u8] advances the slice): a retried request would carry an empty body",
+                  instance=f"WriteBody for {tystr(wb_.self_ty or {})}: write_body leaves the body intact (reset() == true)")
     # ---------------- R4.11 the cookie name of cookie auth is used verbatim by all four generators (macro client / macro server /
     # codegen client / codegen server): the client writes `<name>=<token>` and the server looks for exactly that prefix, cookie
     # names are case-sensitive — any normalisation on one side only makes the pair disagree
@@ -318,7 +342,7 @@ def run(ctx):
     # ---------------- R4.6 / R4.7 body reassembly and PLAIN parameter text (shared with C18 / C12)
     from . import c18, c12, c03, c19
     ctx.include(c03, {"R3.6"}, "R4.9", "client and server generators must classify the return / argument type alike (204 shortcuts, decoders)")
-    ctx.include(c07, {"R7.7", "R7.5"}, "R4.8", "each path argument must be written into the template segment of its own name and decoded by the inverse steps")
+    ctx.include(c07, {"R7.7", "R7.5", "R7.8"}, "R4.8", "each path argument must be written into the template segment of its own name and decoded by the inverse steps")
     ctx.include(c18, {"R18.5"}, "R4.6", "request and response bodies must reach the decoder complete (every chunk, until the stream ends)")
     ctx.include(c19, {"R19.7"}, "R4.10", "an argument the client sent (an empty string included) must reach the handler as that value, never as an absent optional")
     ctx.include(c12, {"R12.1", "R12.2", "R12.3", "R12.4", "R12.5"}, "R4.7", "path / query / header arguments travel as PLAIN text and must parse back to the same value")
